@@ -178,6 +178,26 @@ CHECKS = {
              "float rounding of time()/timeout outside the model.",
         technique="Coq proof (lia/nia over Z floor division, decimal "
                   "injectivity) + vm_compute correspondence"),
+    "C20": dict(
+        text="Theorems: the effective debug flag equals the override when "
+             "the selected environment (request environ, or process environ "
+             "for servers that export it) holds a non-empty value -- true "
+             "exactly for 'on' in any letter case -- and the application "
+             "attribute otherwise (override takes precedence); with debug off "
+             "the routing tail treats /debug-info like any unknown path and "
+             "the debug page is reachable only with debug on; with debug off "
+             "the 500 page is identical for every failure description, for "
+             "any literal text of the page. Correspondence: flag grid, and "
+             "the 500 page rebuilt byte-exactly by the model from the literal "
+             "chunks of the current results.py (debug on and off); monitor "
+             "with a secret token at every failure site.",
+        design="7/C20",
+        note="str.lower modelled for ASCII; page literals are parameters "
+             "taken from the source on every run (fail-closed shape check); "
+             "other built-in pages receive no exception data at all (they "
+             "only log it).",
+        technique="Coq proof (computation/case analysis) + source-extracted "
+                  "literals + vm_compute correspondence"),
 }
 
 NOT_YET = "check not built yet (work in progress, see DESIGN.md section 10)"
